@@ -488,6 +488,21 @@ func (e *Engine) cmdCheck(prop, tier, evid, known, replayDir string, replay bool
 		ob := all[0]
 		samples = append(samples, map[string]interface{}{"obligation": ob.Name, "status": ob.Status, "solver": ob.Solver, "source": ob.Src})
 	}
+	// the slowest discharged obligations (a proof that needs most of the budget is the one that fails under load)
+	slow := []*Obligation{}
+	for _, ob := range all {
+		if ob.Kind != "canary" && ob.Status == "proved" && ob.Time >= 2 {
+			slow = append(slow, ob)
+		}
+	}
+	sort.Slice(slow, func(i, j int) bool { return slow[i].Time > slow[j].Time })
+	slowest := []map[string]interface{}{}
+	for i, ob := range slow {
+		if i == 10 {
+			break
+		}
+		slowest = append(slowest, map[string]interface{}{"obligation": ob.Name, "solver": ob.Solver, "time_s": round3(ob.Time)})
+	}
 	relied := map[string]string{}
 	trusted := []string{
 		"golang.org/x/tools go/packages+go/ssa (source -> SSA translation)",
@@ -543,6 +558,7 @@ func (e *Engine) cmdCheck(prop, tier, evid, known, replayDir string, replay bool
 			"checker_cmd":              "/verif/bin/check " + prop + " --tier " + tier,
 			"trusted_base":             trusted,
 			"samples":                  samples,
+			"slowest_over_2s":          slowest,
 			"functions_under_contract": fns,
 			"n_functions":              len(fns),
 			"by_backend":               bySolver,
